@@ -2,7 +2,9 @@ SPECIFICATION Spec
 CONSTANTS
   Theme = "path"
   MaxFd = 4
-  MaxH = 1
+  MaxLen = 6
+  MaxPipe = 2
+  MaxH = 0
 VIEW view
 CONSTRAINT Bounded
 INVARIANT TypeOK
